@@ -11,6 +11,7 @@ import (
 	"google.golang.org/protobuf/internal/verifh/core"
 	"google.golang.org/protobuf/proto"
 	"google.golang.org/protobuf/reflect/protoreflect"
+	"google.golang.org/protobuf/types/known/structpb"
 )
 
 // Module "codec": protojson / prototext round trip of one content (C20, C24).
@@ -142,9 +143,71 @@ func stripProtoPrefix(s string) string {
 	return strings.TrimLeft(s, "  ")
 }
 
+// randJSONValue builds a random JSON-like Go value (finite numbers only: non-finite Value numbers are unrepresentable).
+func randJSONValue(r *rand.Rand, depth int) any {
+	switch k := r.IntN(7); {
+	case k == 0:
+		return nil
+	case k == 1:
+		return r.IntN(2) == 0
+	case k == 2:
+		return []float64{0, 1, -1, 1.5, 1e21, -1e-7, 9007199254740993, 3.141592653589793}[r.IntN(8)]
+	case k == 3:
+		return []string{"", "a", "é€", "\u0000", "\"quoted\"", "\U0001F600"}[r.IntN(6)]
+	case k == 4 && depth > 0:
+		l := []any{}
+		for i := r.IntN(3); i > 0; i-- {
+			l = append(l, randJSONValue(r, depth-1))
+		}
+		return l
+	case depth > 0:
+		m := map[string]any{}
+		for i := r.IntN(3); i > 0; i-- {
+			m[[]string{"a", "b", "", "null", "é"}[r.IntN(5)]] = randJSONValue(r, depth-1)
+		}
+		return m
+	}
+	return nil
+}
+
+// wktCase builds a Value / Struct / ListValue with representable content; these types are ordinary messages for the
+// round-trip claim (their special JSON forms are C23's subject), so the expectation is the same: content comes back.
+func wktCase(r *rand.Rand) (string, map[string]any) {
+	switch r.IntN(3) {
+	case 0:
+		v, err := structpb.NewValue(randJSONValue(r, 2))
+		if err != nil {
+			v = structpb.NewNullValue()
+		}
+		return "google.protobuf.Value", Project(v.ProtoReflect())
+	case 1:
+		m, _ := randJSONValue(r, 0).(map[string]any)
+		mm := map[string]any{"k": randJSONValue(r, 2), "n": nil}
+		for k, v := range m {
+			mm[k] = v
+		}
+		s, err := structpb.NewStruct(mm)
+		if err != nil {
+			s, _ = structpb.NewStruct(map[string]any{"n": nil})
+		}
+		return "google.protobuf.Struct", Project(s.ProtoReflect())
+	default:
+		l, err := structpb.NewList([]any{randJSONValue(r, 1), nil, randJSONValue(r, 2)})
+		if err != nil {
+			l, _ = structpb.NewList([]any{nil})
+		}
+		return "google.protobuf.ListValue", Project(l.ProtoReflect())
+	}
+}
+
 func codecGen(r *rand.Rand, n int, emit func(core.Case)) {
 	types := typesFromEnv()
 	for i := 0; i < n; i++ {
+		if r.IntN(6) == 0 {
+			name, lit := wktCase(r)
+			emit(core.Case{"fmt": "json", "type": name, "dyn": r.IntN(3) == 0, "lit": lit, "opts": r.IntN(64)})
+			continue
+		}
 		name, dyn := splitType(types[r.IntN(len(types))])
 		md := NewObj(name, dyn).Descriptor()
 		f := "json"
